@@ -1,9 +1,8 @@
-import VelaVerif.Handlers.Payload
+import VelaVerif.Handlers.All
 /-! Line protocol driver: one request per line on stdin, one canonical answer per line on stdout. -/
 open VelaVerif.Handlers
 
-def handlers : List (List String → Option String) :=
-  [ Payload.handle ]
+def handlers : List (List String → Option String) := allHandlers
 
 def dispatch (line : String) : String :=
   let toks := (line.trimAscii.toString.splitOn " ").filter (· ≠ "")
